@@ -23,10 +23,14 @@ use crate::opcodes::OpcodeKind;
 
 impl Generator {
     pub(super) fn generate_internal(&mut self, source: &mut GenerationSource) -> Result<Vec<u8>> {
+        #[cfg(pickle_fuzzer_verif)]
+        crate::verif::record(self, "begin", None);
         // decide if we'll use FRAME (only for protocol >= 4, randomly chosen)
         let use_frame = self.state.version >= Version::V4 && source.gen_bool();
 
         self.emit_proto(source);
+        #[cfg(pickle_fuzzer_verif)]
+        crate::verif::record(self, "proto", Some(OpcodeKind::Proto));
 
         // reserve space for FRAME if we're going to use it
         let frame_position = if use_frame {
@@ -37,6 +41,8 @@ impl Generator {
         } else {
             None
         };
+        #[cfg(pickle_fuzzer_verif)]
+        crate::verif::record(self, "reserve", None);
 
         // determine target complexity (random number of opcodes to emit)
         let range = self.max_opcodes.saturating_sub(self.min_opcodes);
@@ -45,6 +51,8 @@ impl Generator {
         } else {
             self.min_opcodes
         };
+        #[cfg(pickle_fuzzer_verif)]
+        crate::verif::record_target(self, target_opcodes);
 
         // generation phase - allow stack to grow and build complex structures
         for _ in 0..target_opcodes {
@@ -53,14 +61,20 @@ impl Generator {
                 // no valid moves available, move to cleanup
                 break;
             }
+            #[cfg(pickle_fuzzer_verif)]
+            crate::verif::note_enabled(&valid_ops);
             let chosen = self.weighted_choice(valid_ops, source);
             self.emit_and_process(chosen, source)?;
+            #[cfg(pickle_fuzzer_verif)]
+            crate::verif::record(self, "body", Some(chosen));
         }
 
         // cleanup phase - reduce stack to exactly 1 item for STOP
         self.cleanup_for_stop();
 
         self.emit_opcode(OpcodeKind::Stop);
+        #[cfg(pickle_fuzzer_verif)]
+        crate::verif::record(self, "stop", Some(OpcodeKind::Stop));
 
         // if we reserved space for FRAME, fill it in now with the correct size
         if let Some(pos) = frame_position {
@@ -78,6 +92,8 @@ impl Generator {
             self.output[pos] = OpcodeKind::Frame.as_u8();
             self.output[pos + 1..pos + 9].copy_from_slice(&(frame_size as u64).to_le_bytes());
         }
+        #[cfg(pickle_fuzzer_verif)]
+        crate::verif::record(self, "patch", None);
 
         Ok(self.output.clone())
     }
